@@ -824,8 +824,8 @@ func resolveBlockAddress(block *hcl.Block, blockSchema *schema.BlockSchema) (lan
 				return lang.Address{}, false
 			}
 			val, _ := attr.Expr.Value(nil)
-			if !val.IsWhollyKnown() {
-				// unknown value
+			if val.IsNull() || !val.IsWhollyKnown() {
+				// null (e.g. a conditional with a null result) or unknown value
 				return lang.Address{}, false
 			}
 			if val.Type() != cty.String {
